@@ -23,6 +23,7 @@ from vmon import contracts
 from vmon.core import outcome
 
 PROPERTY_ID = "C17"
+REPO_TEST_MODULES = ["test_block", "test_merkleblock", "test_helper"]  # thorough tier: extra workload under the contracts
 RULE = (
     "cases = (a) id lists given to merkle_root, (b) merkleblock messages (honest BIP37 proofs built by the reference "
     "CPartialMerkleTree port for a generated block, and single alterations of them) parsed by MerkleBlock.parse and "
